@@ -148,6 +148,72 @@ Proof.
   - rewrite RY, RY', Px, Py, Qx, Qy. reflexivity.
 Qed.
 
+(* ---------------------------------------------------------------- consequences of the addition law *)
+
+Lemma ext_zero_ok : ext_ok (ext_zero O) /\ ax O (ext_zero O) = 0 /\ ay O (ext_zero O) = 1.
+Proof.
+  pose proof (one_neq_zero O L) as N1. unfold ext_ok, ext_zero, ax, ay. cbn [eX eY eZ eT].
+  split; [split; [exact N1|ring]|]. split; field; exact N1.
+Qed.
+
+(* the neutral element: P + O represents P *)
+Theorem pt_add_zero (p : ext (K:=K)) :
+  1 + 1 <> 0 -> ext_ok p -> eeqv (pt_add O (d + d) p (ext_zero O)) p.
+Proof.
+  intros H2 Hp. destruct ext_zero_ok as [Hz [Zx Zy]]. pose proof (one_neq_zero O L) as N1.
+  assert (D0 : d * ax O p * ax O (ext_zero O) * ay O p * ay O (ext_zero O) = 0) by (rewrite Zx; ring).
+  assert (D1 : 1 + d * ax O p * ax O (ext_zero O) * ay O p * ay O (ext_zero O) <> 0)
+    by (rewrite D0; intros E; apply N1; rewrite <- E; ring).
+  assert (D2 : 1 - d * ax O p * ax O (ext_zero O) * ay O p * ay O (ext_zero O) <> 0)
+    by (rewrite D0; intros E; apply N1; rewrite <- E; ring).
+  destruct (pt_add_spec p (ext_zero O) H2 Hp Hz D1 D2) as [R [RX RY]]. cbv zeta in *.
+  split; [exact R|]. split; [exact Hp|]. split.
+  - rewrite RX, D0, Zx, Zy. field. exact N1.
+  - rewrite RY, D0, Zx, Zy. field. exact N1.
+Qed.
+
+(* commutativity on the elements: P + Q and Q + P represent the same element *)
+Theorem pt_add_comm (p q : ext (K:=K)) :
+  1 + 1 <> 0 -> ext_ok p -> ext_ok q ->
+  1 + d * ax O p * ax O q * ay O p * ay O q <> 0 -> 1 - d * ax O p * ax O q * ay O p * ay O q <> 0 ->
+  eeqv (pt_add O (d + d) p q) (pt_add O (d + d) q p).
+Proof.
+  intros H2 Hp Hq D1 D2.
+  assert (E : d * ax O q * ax O p * ay O q * ay O p = d * ax O p * ax O q * ay O p * ay O q) by ring.
+  assert (D1' : 1 + d * ax O q * ax O p * ay O q * ay O p <> 0) by (rewrite E; exact D1).
+  assert (D2' : 1 - d * ax O q * ax O p * ay O q * ay O p <> 0) by (rewrite E; exact D2).
+  destruct (pt_add_spec p q H2 Hp Hq D1 D2) as [R [RX RY]].
+  destruct (pt_add_spec q p H2 Hq Hp D1' D2') as [R' [RX' RY']]. cbv zeta in *.
+  split; [exact R|]. split; [exact R'|]. split.
+  - rewrite RX, RX', E. f_equal. ring.
+  - rewrite RY, RY', E. f_equal. ring.
+Qed.
+
+(* inverses: for a point of the curve, P + (-P) represents the neutral element *)
+Theorem pt_add_neg (p : ext (K:=K)) :
+  1 + 1 <> 0 -> ext_ok p -> on_curve p ->
+  1 + d * ax O p * ax O p * ay O p * ay O p <> 0 -> 1 - d * ax O p * ax O p * ay O p * ay O p <> 0 ->
+  eeqv (pt_add O (d + d) p (pt_neg O p)) (ext_zero O).
+Proof.
+  intros H2 Hp Hc D1 D2. destruct (pt_neg_spec p Hp) as [Hn [NX NY]]. destruct ext_zero_ok as [Hz [Zx Zy]].
+  assert (E : d * ax O p * ax O (pt_neg O p) * ay O p * ay O (pt_neg O p)
+              = - (d * ax O p * ax O p * ay O p * ay O p)) by (rewrite NX, NY; ring).
+  assert (D1' : 1 + d * ax O p * ax O (pt_neg O p) * ay O p * ay O (pt_neg O p) <> 0).
+  { rewrite E. intros X. apply D2. rewrite <- X. ring. }
+  assert (D2' : 1 - d * ax O p * ax O (pt_neg O p) * ay O p * ay O (pt_neg O p) <> 0).
+  { rewrite E. intros X. apply D1. rewrite <- X. ring. }
+  destruct (pt_add_spec p (pt_neg O p) H2 Hp Hn D1' D2') as [R [RX RY]]. cbv zeta in *.
+  split; [exact R|]. split; [exact Hz|]. split.
+  - rewrite RX, Zx, NX, NY. field. rewrite <- NX, <- NY at 1. exact D1'.
+  - rewrite RY, Zy, E, NX, NY. unfold on_curve in Hc. cbv zeta in Hc.
+    assert (Den : 1 - - (d * ax O p * ax O p * ay O p * ay O p) <> 0).
+    { intros X. apply D1. rewrite <- X. ring. }
+    apply (proj1 (sub_eq_0 O L _ _)). 
+    transitivity (((ay O p * ay O p - ax O p * ax O p) - (1 + d * ax O p * ax O p * ay O p * ay O p))
+                  * / (1 - - (d * ax O p * ax O p * ay O p * ay O p))); [field; exact Den|].
+    rewrite Hc. field. exact Den.
+Qed.
+
 End EdLaws.
 
 (* ---------------------------------------------------------------- the constants of const.go *)
